@@ -9,8 +9,8 @@ package pair
 import (
 	"fmt"
 	"go/token"
-	"sort"
 	"go/types"
+	"sort"
 
 	"golang.org/x/tools/go/ssa"
 
@@ -22,6 +22,8 @@ type Kind struct {
 	Name     string
 	Release  func(calleeName string) bool // release methods/functions (receiver or first arg = resource)
 	Consumes func(calleeName string, argIndex int) bool
+	// ConsumesCall, when set, is a computed ownership summary for static callees
+	ConsumesCall func(cc *ssa.CallCommon, argIndex int) bool
 }
 
 // Event is something that discharges (or transfers) the obligation.
@@ -173,146 +175,166 @@ func Analyze(k *Kind, fn *ssa.Function, start ssa.Instruction, roots []ssa.Value
 	isAlias := func(v ssa.Value) bool { return s.aliases[v] }
 	var eventOf func(in ssa.Instruction, isAlias func(ssa.Value) bool) string
 	eventOf = func(in ssa.Instruction, isAlias func(ssa.Value) bool) string {
-	releaseOn := func(cc *ssa.CallCommon) bool {
-		if cc == nil {
-			return false
-		}
-		n := ssax.CalleeName(cc)
-		if !k.Release(n) {
-			return false
-		}
-		if cc.IsInvoke() {
-			return isAlias(cc.Value)
-		}
-		for _, a := range cc.Args {
-			if isAlias(a) {
-				return true
+		releaseOn := func(cc *ssa.CallCommon) bool {
+			if cc == nil {
+				return false
 			}
+			n := ssax.CalleeName(cc)
+			if !k.Release(n) {
+				return false
+			}
+			if cc.IsInvoke() {
+				return isAlias(cc.Value)
+			}
+			for _, a := range cc.Args {
+				if isAlias(a) {
+					return true
+				}
+			}
+			return false
 		}
-		return false
-	}
-	closureReleases := func(f *ssa.Function) bool {
-		found := false
-		var visit func(g *ssa.Function)
-		visit = func(g *ssa.Function) {
-			for _, b := range g.Blocks {
-				for _, in := range b.Instrs {
-					if releaseOn(ssax.Common(in)) {
-						found = true
+		closureReleases := func(f *ssa.Function) bool {
+			found := false
+			var visit func(g *ssa.Function)
+			visit = func(g *ssa.Function) {
+				for _, b := range g.Blocks {
+					for _, in := range b.Instrs {
+						if releaseOn(ssax.Common(in)) {
+							found = true
+						}
 					}
 				}
-			}
-			for _, a := range g.AnonFuncs {
-				visit(a)
-			}
-		}
-		visit(f)
-		return found
-	}
-	// event classification of one instruction (closures are summarised at their creation/defer point)
-	evAt := map[ssa.Instruction]string{}
-	{
-		{
-			switch x := in.(type) {
-			case *ssa.Call:
-				if releaseOn(x.Common()) {
-					evAt[in] = "release"
-					return evAt[in]
+				for _, a := range g.AnonFuncs {
+					visit(a)
 				}
-				cc := x.Common()
-				if mc, ok := cc.Value.(*ssa.MakeClosure); ok {
-					// immediately invoked closure that releases
-					if containsClosure(closures, mc) && closureReleases(mc.Fn.(*ssa.Function)) {
+			}
+			visit(f)
+			return found
+		}
+		// event classification of one instruction (closures are summarised at their creation/defer point)
+		evAt := map[ssa.Instruction]string{}
+		{
+			{
+				switch x := in.(type) {
+				case *ssa.Call:
+					if releaseOn(x.Common()) {
 						evAt[in] = "release"
 						return evAt[in]
 					}
-				}
-				n := ssax.CalleeName(cc)
-				for i, a := range cc.Args {
-					if isAlias(a) && k.Consumes != nil && k.Consumes(n, i) {
-						evAt[in] = "consume:" + n
+					cc := x.Common()
+					if mc, ok := cc.Value.(*ssa.MakeClosure); ok {
+						// immediately invoked closure that releases
+						if containsClosure(closures, mc) && closureReleases(mc.Fn.(*ssa.Function)) {
+							evAt[in] = "release"
+							return evAt[in]
+						}
 					}
-				}
-			case *ssa.Defer:
-				if releaseOn(x.Common()) {
-					evAt[in] = "defer-release"
-					return evAt[in]
-				}
-				if mc, ok := x.Call.Value.(*ssa.MakeClosure); ok {
-					if closureReleases(mc.Fn.(*ssa.Function)) {
-						evAt[in] = "defer-closure"
+					n := ssax.CalleeName(cc)
+					for i, a := range cc.Args {
+						if isAlias(a) && k.Consumes != nil && k.Consumes(n, i) {
+							evAt[in] = "consume:" + n
+						}
+						if isAlias(a) && k.ConsumesCall != nil && !cc.IsInvoke() && k.ConsumesCall(cc, i) {
+							evAt[in] = "consume:" + n
+						}
 					}
-				}
-			case *ssa.Go:
-				if mc, ok := x.Call.Value.(*ssa.MakeClosure); ok && closureReleases(mc.Fn.(*ssa.Function)) {
-					evAt[in] = "go-closure"
-				}
-				for _, a := range x.Call.Args {
-					if isAlias(a) {
-						evAt[in] = "go-arg"
+				case *ssa.Defer:
+					if releaseOn(x.Common()) {
+						evAt[in] = "defer-release"
+						return evAt[in]
 					}
-				}
-			case *ssa.Return:
-				for _, rv := range x.Results {
-					if u := ssax.Unspill(rv, x); u != rv {
-						if isAlias(u) {
+					if mc, ok := x.Call.Value.(*ssa.MakeClosure); ok {
+						if closureReleases(mc.Fn.(*ssa.Function)) {
+							evAt[in] = "defer-closure"
+						}
+					}
+				case *ssa.Go:
+					if mc, ok := x.Call.Value.(*ssa.MakeClosure); ok && closureReleases(mc.Fn.(*ssa.Function)) {
+						evAt[in] = "go-closure"
+					}
+					for _, a := range x.Call.Args {
+						if isAlias(a) {
+							evAt[in] = "go-arg"
+						}
+					}
+				case *ssa.Return:
+					for _, rv := range x.Results {
+						if u := ssax.Unspill(rv, x); u != rv {
+							if isAlias(u) {
+								evAt[in] = "return"
+							}
+						} else if isAlias(rv) {
 							evAt[in] = "return"
 						}
-					} else if isAlias(rv) {
-						evAt[in] = "return"
 					}
-				}
-			case *ssa.Store:
-				if isAlias(x.Val) {
-					switch a := x.Addr.(type) {
-					case *ssa.FieldAddr:
-						evAt[in] = "store"
-						s.Owners = append(s.Owners, ssax.FieldQName(a))
-					case *ssa.IndexAddr:
-						// element store: into a local varargs/literal array (flows to append) or a heap slice
-						if _, local := a.X.(*ssa.Alloc); !local {
-							evAt[in] = "store-elem"
-						} else if appendTargetsField(a.X.(*ssa.Alloc), s) {
-							evAt[in] = "append-store"
-						} else if appendEscapes(a.X.(*ssa.Alloc)) {
-							evAt[in] = "append"
+				case *ssa.Store:
+					if isAlias(x.Val) {
+						switch a := x.Addr.(type) {
+						case *ssa.FieldAddr:
+							evAt[in] = "store"
+							s.Owners = append(s.Owners, ssax.FieldQName(a))
+						case *ssa.IndexAddr:
+							// element store: into a local varargs/literal array (flows to append) or a heap slice
+							if _, local := a.X.(*ssa.Alloc); !local {
+								evAt[in] = "store-elem"
+							} else if appendTargetsField(a.X.(*ssa.Alloc), s) {
+								evAt[in] = "append-store"
+							} else if appendEscapes(a.X.(*ssa.Alloc)) {
+								evAt[in] = "append"
+							}
+						case *ssa.Global:
+							evAt[in] = "store-global"
 						}
-					case *ssa.Global:
-						evAt[in] = "store-global"
 					}
-				}
-			case *ssa.Send:
-				if isAlias(x.X) {
-					evAt[in] = "send"
-				}
-			case *ssa.MakeClosure:
-				if containsClosure(closures, x) && closureReleases(x.Fn.(*ssa.Function)) && !onlyDeferredOrCalled(x) {
-					evAt[in] = "closure"
-				}
-				// bound method value of a release method on the resource (x.decRef taken as a func value):
-				// ownership moves to whoever holds the func
-				if fnc := x.Fn.(*ssa.Function); len(x.Bindings) == 1 && isAlias(x.Bindings[0]) && fnc.Synthetic != "" {
-					if obj, ok := fnc.Object().(*types.Func); ok && obj != nil && k.Release(ssax.Short(obj.FullName())) {
-						evAt[in] = "bound-release"
+				case *ssa.Send:
+					if isAlias(x.X) {
+						evAt[in] = "send"
 					}
-				}
-			case *ssa.MapUpdate:
-				if isAlias(x.Value) {
-					evAt[in] = "store-map"
-				}
-			case *ssa.If:
-				// loop over an owned collection whose body releases the elements: entering the loop
-				// discharges the collection (a live collection is non-empty)
-				if bo, ok := x.Cond.(*ssa.BinOp); ok && bo.Op == token.LSS {
-					if lc, ok := bo.Y.(*ssa.Call); ok {
-						if b, ok := lc.Call.Value.(*ssa.Builtin); ok && b.Name() == "len" && isAlias(lc.Call.Args[0]) {
-							body := x.Block().Succs[0]
-							for _, bb := range fn.Blocks {
-								if bb != body && !body.Dominates(bb) {
+				case *ssa.MakeClosure:
+					if containsClosure(closures, x) && closureReleases(x.Fn.(*ssa.Function)) && !onlyDeferredOrCalled(x) {
+						evAt[in] = "closure"
+					}
+					// bound method value of a release method on the resource (x.decRef taken as a func value):
+					// ownership moves to whoever holds the func
+					if fnc := x.Fn.(*ssa.Function); len(x.Bindings) == 1 && isAlias(x.Bindings[0]) && fnc.Synthetic != "" {
+						if obj, ok := fnc.Object().(*types.Func); ok && obj != nil && k.Release(ssax.Short(obj.FullName())) {
+							evAt[in] = "bound-release"
+						}
+					}
+				case *ssa.MapUpdate:
+					if isAlias(x.Value) {
+						evAt[in] = "store-map"
+					}
+				case *ssa.If:
+					// loop whose body releases ELEMENTS of the owned collection: entering the loop discharges
+					// the collection (a live collection is non-empty; the loop is taken to cover it)
+					if bo, ok := x.Cond.(*ssa.BinOp); ok && bo.Op == token.LSS && len(x.Block().Succs) == 2 {
+						body := x.Block().Succs[0]
+						isElem := func(v ssa.Value) bool {
+							switch e := v.(type) {
+							case *ssa.UnOp:
+								if ia, ok := e.X.(*ssa.IndexAddr); ok {
+									return isAlias(ia.X)
+								}
+							case *ssa.Index:
+								return isAlias(e.X)
+							}
+							return false
+						}
+						for _, bb := range fn.Blocks {
+							if bb != body && !body.Dominates(bb) {
+								continue
+							}
+							for _, bi := range bb.Instrs {
+								c, ok := bi.(*ssa.Call)
+								if !ok || !releaseOn(c.Common()) {
 									continue
 								}
-								for _, bi := range bb.Instrs {
-									if c, ok := bi.(*ssa.Call); ok && releaseOn(c.Common()) {
+								if c.Common().IsInvoke() && isElem(c.Common().Value) {
+									evAt[in] = "release-loop"
+								}
+								for _, a := range c.Common().Args {
+									if isElem(a) {
 										evAt[in] = "release-loop"
 									}
 								}
@@ -322,8 +344,7 @@ func Analyze(k *Kind, fn *ssa.Function, start ssa.Instruction, roots []ssa.Value
 				}
 			}
 		}
-	}
-	return evAt[in]
+		return evAt[in]
 	}
 	evAt := map[ssa.Instruction]string{}
 	for _, b := range fn.Blocks {
@@ -341,7 +362,9 @@ func Analyze(k *Kind, fn *ssa.Function, start ssa.Instruction, roots []ssa.Value
 			aliasPhis = append(aliasPhis, p)
 		}
 	}
-	sort.Slice(aliasPhis, func(i, j int) bool { return aliasPhis[i].Pos() < aliasPhis[j].Pos() || aliasPhis[i].Name() < aliasPhis[j].Name() })
+	sort.Slice(aliasPhis, func(i, j int) bool {
+		return aliasPhis[i].Pos() < aliasPhis[j].Pos() || aliasPhis[i].Name() < aliasPhis[j].Name()
+	})
 	type pstate map[*ssa.Phi]bool
 	key := func(st pstate) string {
 		b := make([]byte, len(aliasPhis))
@@ -446,7 +469,7 @@ func Analyze(k *Kind, fn *ssa.Function, start ssa.Instruction, roots []ssa.Value
 		if live(v) {
 			return succ != nilSucc // drop "resource is nil"
 		}
-		if errVals[v] {
+		if errVals[v] || errVals[ssax.Unspill(v, nil)] {
 			return succ == nilSucc // drop "err != nil" (nothing acquired)
 		}
 		return true
@@ -525,7 +548,9 @@ func Analyze(k *Kind, fn *ssa.Function, start ssa.Instruction, roots []ssa.Value
 		if w != "release" {
 			continue
 		}
-		second := func(x ssa.Instruction) bool { return x != in && evAt[x] == "release" || evAt[x] == "defer-release" && false }
+		second := func(x ssa.Instruction) bool {
+			return x != in && evAt[x] == "release" || evAt[x] == "defer-release" && false
+		}
 		reacq := func(x ssa.Instruction) bool { return x == acq }
 		if tgt, _, found := (ssax.Search{Target: second, Avoid: reacq, Edge: edge}).From(fn, in); found {
 			s.Double = [2]ssa.Instruction{in, tgt}
